@@ -2,6 +2,7 @@
 // cases the extracted Coq model also receives; one canonical result line per case.
 mod util;
 mod c07;
+mod c14;
 
 use std::io::{BufRead, Write};
 use std::panic;
@@ -13,6 +14,7 @@ fn handle(line: &str) -> String {
     }
     match toks[0] {
         "c07" => c07::run(&toks[1..]),
+        "c14" => c14::run(&toks[1..]),
         k => format!("UNKNOWN-KIND {}", k),
     }
 }
